@@ -268,6 +268,44 @@ def stage_b(run, tier):
     return terms, meta
 
 
+HDR_LOC = "Require Import OPC.gen.GenKinds OPC.Uni OPC.Names OPC.Codec OPC.FrameCodec.\n"
+
+
+def stage_b_locations(run):
+    """PropertyProtocol.validate_location of the two enum property classes (built by property_from_data with literal_enums off / on)
+    vs FrameCodec.validate_location over the regenerated class facts; oracle: the two classes agree in every location"""
+    from openapi_python_client.parser.properties import property_from_data, Schemas
+    from openapi_python_client import schema as oai
+    terms, meta = [], []
+    LOC = {"query": "LQuery", "path": "LPath", "header": "LHeader", "cookie": "LCookie"}
+    for sch, vt in (({"type": "string", "enum": ["a", "b"]}, "VTStr"), ({"type": "integer", "enum": [1, 2]}, "VTInt")):
+        for required in (True, False):
+            obs = {}
+            for lit in (False, True):
+                cfg = new_config({"literal_enums": lit})
+                prop, _ = property_from_data(name="p", required=required, data=oai.Schema(**sch), schemas=Schemas(), parent_name="Parent", config=cfg)
+                cname = type(prop).__name__
+                for loc, cl in LOC.items():
+                    ok = prop.validate_location(oai.ParameterLocation(loc)) is None
+                    obs[(lit, loc)] = ok
+                    k = f"(KLitEnum {vt} [])" if lit else f"(KEnum 0%N {vt} [])"
+                    case = {"fn": "validate_location", "class": cname, "location": loc, "required": required, "literal_enums": lit}
+                    if (cname == "LiteralEnumProperty") != lit:
+                        run.violation("oracle", {**case, "note": "literal_enums does not select the enum property class"})
+                    terms.append(f"Bool.eqb (validate_location {k} {cl} {'true' if required else 'false'}) {'true' if ok else 'false'}")
+                    meta.append({**case, "impl": ok})
+                    run.note_case(case, nontrivial=True, kind="B:validate_location")
+            for loc in LOC:
+                if obs[(False, loc)] != obs[(True, loc)]:
+                    run.violation("oracle", {"fn": "validate_location", "location": loc, "required": required, "schema": sch,
+                                             "note": "an enum parameter is allowed in this location under one enum representation only: literal_enums changes which operations are generated",
+                                             "EnumProperty": obs[(False, loc)], "LiteralEnumProperty": obs[(True, loc)]})
+    bad = run_cases(HDR_LOC, terms, shard=100)
+    for i in bad:
+        run.violation("correspondence", {**meta[i], "note": "validate_location differs from FrameCodec.validate_location over the regenerated _allowed_locations"})
+    return len(terms), len(bad)
+
+
 # ====================================================================================================== documents for stage C
 REF = G.REF
 
@@ -327,6 +365,44 @@ def add_ops(doc, rng, label):
     d["paths"] = paths
     d["info"] = {"title": "C16 Api " + re.sub(r"[^A-Za-z0-9]", "", label), "version": "1.0.2"}
     return d
+
+
+def enum_everywhere_doc():
+    """string and integer enums in EVERY position: model property (required / optional / nullable / inline), array item, nested
+    array, union member, additionalProperties; parameters in all four locations, required and optional, plain and as array items;
+    request and response bodies (as the body itself, as array items, inside models, as map values); several tags"""
+    C, L = {"$ref": REF + "EColor"}, {"$ref": REF + "ELevel"}
+    Sx = {"EColor": {"type": "string", "enum": ["red", "green", "dark blue"]}, "ELevel": {"type": "integer", "enum": [1, 2, 30]},
+          "EHolder": G.obj({"c": C, "oc": C, "l": L, "ol": L, "inl": {"type": "string", "enum": ["x", "y z"]}, "inli": {"type": "integer", "enum": [5, 6]},
+                            "arr": G.arr(C), "oarr": G.arr(L), "deep": G.arr(G.arr(C)), "u": G.any_of(L, {"type": "string"}), "nu": G.any_of(C, G.NULL),
+                            "ul": G.any_of(G.arr(C), {"type": "integer"})}, required=["c", "l", "arr", "u"]),
+          "EMap": G.obj({"k": {"type": "string"}}, addl=C), "EMapL": G.obj({}, addl=G.arr(L)),
+          "EForm": G.obj({"color": C, "level": L, "note": {"type": "string"}}, required=["color"])}
+    J = lambda sch: {"description": "ok", "content": {"application/json": {"schema": sch}}}
+    Bd = lambda sch, ct="application/json": {"required": True, "content": {ct: {"schema": sch}}}
+    def Pm(name, loc, sch, req):
+        return {"name": name, "in": loc, "schema": sch, "required": True if loc == "path" else req}
+    paths = {}
+    for loc in ("query", "header", "cookie"):
+        paths[f"/in/{loc}"] = {"get": {"operationId": f"enum_in_{loc}", "tags": [loc, "params"],
+                                       "parameters": [Pm("r-color", loc, C, True), Pm("o-color", loc, C, False), Pm("r-level", loc, L, True), Pm("o-level", loc, L, False),
+                                                      Pm("inline", loc, {"type": "string", "enum": ["p", "q"]}, False)],
+                                       "responses": {"200": J(C)}}}
+        paths[f"/only/{loc}/req"] = {"get": {"operationId": f"enum_only_req_{loc}", "tags": [loc], "parameters": [Pm("color", loc, C, True)], "responses": {"200": J(L)}}}
+        paths[f"/only/{loc}/opt"] = {"get": {"operationId": f"enum_only_opt_{loc}", "tags": [loc], "parameters": [Pm("level", loc, L, False)], "responses": {"200": J(G.arr(C))}}}
+    paths["/in/query/list"] = {"get": {"operationId": "enum_list_in_query", "tags": ["query"], "parameters": [Pm("colors", "query", G.arr(C), True), Pm("levels", "query", G.arr(L), False)],
+                                       "responses": {"200": J(G.arr(L))}}}
+    paths["/in/path/{color}/{level}"] = {"get": {"operationId": "enum_in_path", "tags": ["path", "params"], "parameters": [Pm("color", "path", C, True), Pm("level", "path", L, True)],
+                                                 "responses": {"200": J({"$ref": REF + "EHolder"})}}}
+    paths["/mixed/{level}"] = {"put": {"operationId": "enum_mixed", "tags": ["params", "bodies"],
+                                       "parameters": [Pm("level", "path", L, True), Pm("q", "query", C, False), Pm("X-Color", "header", C, True), Pm("X-Level", "header", L, False), Pm("ck", "cookie", C, False)],
+                                       "requestBody": Bd({"$ref": REF + "EHolder"}), "responses": {"200": J({"$ref": REF + "EHolder"}), "404": J(C)}}}
+    paths["/body/enum"] = {"post": {"operationId": "enum_body", "tags": ["bodies"], "requestBody": Bd(C), "responses": {"200": J(L)}}}
+    paths["/body/list"] = {"post": {"operationId": "enum_list_body", "tags": ["bodies"], "requestBody": Bd(G.arr(L)), "responses": {"200": J(G.arr(C))}}}
+    paths["/body/map"] = {"post": {"operationId": "enum_map_body", "tags": ["bodies"], "requestBody": Bd({"$ref": REF + "EMap"}), "responses": {"200": J({"$ref": REF + "EMapL"})}}}
+    paths["/body/form"] = {"post": {"operationId": "enum_form_body", "tags": ["bodies"], "requestBody": Bd({"$ref": REF + "EForm"}, "application/x-www-form-urlencoded"),
+                                    "responses": {"200": J({"$ref": REF + "EForm"})}}}
+    return {"openapi": "3.1.0", "info": {"title": "Enum Api", "version": "3.0"}, "paths": paths, "components": {"schemas": Sx}}
 
 
 def plain_doc(rng):
@@ -533,6 +609,8 @@ def wire_plan(tree, instances):
                     okp = False
                 else:
                     kw["body"] = {"@model": [str(b.prop.class_info.name), absprop.to_runner_json(inst)]}
+            elif bt == "json" and pn != "ModelProperty" and param_value(b.prop) is not None:
+                kw["body"] = param_value(b.prop)
             elif bt == "content":
                 kw["body"] = {"@file": "00ff10"}
             else:
@@ -554,7 +632,9 @@ def wire_plan(tree, instances):
                         mi = next((i for i, m in enumerate(models) if m.class_info.name == r.prop.inner_property.class_info.name), None)
                         rsp = {"status": 200, "json": [absprop.to_runner_json(x) for x in (instances.get(mi) or [])[:2]]}
                     elif pn in ("EnumProperty", "LiteralEnumProperty"):
-                        rsp = {"status": 200, "json": sorted(r.prop.values.values() if pn == "EnumProperty" else r.prop.values, key=str)[0]}
+                        rsp = {"status": 200, "json": enum_values(r.prop)[-1]}
+                    elif pn == "ListProperty" and type(r.prop.inner_property).__name__ in ("EnumProperty", "LiteralEnumProperty"):
+                        rsp = {"status": 200, "json": enum_values(r.prop.inner_property)[:2]}
                     else:
                         rsp = {"status": 200, "json": "x"}
                 elif at == "response.text":
@@ -568,7 +648,14 @@ def wire_plan(tree, instances):
     return ops, keys
 
 
-def param_value(p):
+def enum_values(p):
+    n = type(p).__name__
+    return sorted(p.values.values(), key=str) if n == "EnumProperty" else sorted(p.values, key=str)
+
+
+def param_value(p, pick=0):
+    """argument marker for client_runner from the tree's OWN property object; the value is a function of the property's kind and
+    declared values only, so the plans of two generations of one document pass the same wire values"""
     n = type(p).__name__
     if n == "IntProperty":
         return 7
@@ -578,12 +665,29 @@ def param_value(p):
         return True
     if n == "FloatProperty":
         return {"@f": "1.5"}
+    if n == "DateProperty":
+        return {"@date": "2020-01-02"}
+    if n == "DateTimeProperty":
+        return {"@datetime": "2020-01-02T03:04:05"}
+    if n == "UuidProperty":
+        return {"@uuid": "12345678-1234-5678-1234-567812345678"}
     if n == "EnumProperty":
-        return {"@enum": [str(p.class_info.name), sorted(p.values.values(), key=str)[0]]}
+        vs = enum_values(p)
+        return {"@enum": [str(p.class_info.name), vs[pick % len(vs)]]}
     if n == "LiteralEnumProperty":
-        return sorted(p.values, key=str)[0]
-    if n == "ListProperty" and type(p.inner_property).__name__ == "StringProperty":
-        return ["a", "b c"]
+        vs = enum_values(p)
+        return vs[pick % len(vs)]
+    if n == "ListProperty":
+        inner = [param_value(p.inner_property, i) for i in (0, 1)]
+        return None if any(x is None for x in inner) else inner
+    if n == "UnionProperty":
+        for m in p.inner_properties:       # first member with a value; enum members first so that the option under test is exercised
+            if type(m).__name__ in ("EnumProperty", "LiteralEnumProperty"):
+                return param_value(m, 1)
+        for m in p.inner_properties:
+            v = param_value(m)
+            if v is not None and type(m).__name__ != "NoneProperty":
+                return v
     return None
 
 
@@ -592,6 +696,8 @@ def norm_obs(x, enum_plain=False):
     if isinstance(x, dict):
         if enum_plain and x.get("t") == "enum":
             return {"t": "j", "v": x.get("v")}
+        if enum_plain and set(x) >= {"type", "msg"} and isinstance(x.get("msg"), str):
+            return {"type": x["type"]}      # exception texts name the value's class (ELevel / int): only the exception type is compared
         return {k: norm_obs(v, enum_plain) for k, v in x.items() if k not in ("tb",) and not (enum_plain and k == "parsed_cls")}
     if isinstance(x, list):
         return [norm_obs(v, enum_plain) for v in x]
@@ -881,6 +987,24 @@ def relation(opt, doc, base, var, ctx):
                 if B[k] != V.get(k):
                     fail("literal_enums changed a file outside models/ and api/", k)
                     break
+        # (a) the option must not change WHICH operations are generated, nor the diagnostics (FrameCodec.literal_enum_same_operations)
+        api = var.pp + "api/"
+        mb, mv = sorted(k for k in B if k.startswith(api)), sorted(k for k in V if k.startswith(api))
+        if mb != mv:
+            fail("literal_enums changed the set of generated api modules", {"only_off": [k for k in mb if k not in mv][:5], "only_on": [k for k in mv if k not in mb][:5],
+                                                                             "diagnostics_on": [d_ for d_ in var.diag() if d_ not in base.diag()][:3]})
+        db, dv = sorted((l, h) for l, h, _ in base.diag()), sorted((l, h) for l, h, _ in var.diag())
+        if db != dv:
+            fail("literal_enums changed the diagnostics", {"only_off": [x for x in db if x not in dv][:3], "only_on": [x for x in dv if x not in db][:3],
+                                                            "detail_on": [d_ for d_ in var.diag() if (d_[0], d_[1]) not in db][:2]})
+        eb = [(t, e.method, e.path, [(str(p.name), loc) for loc, ps in (("path", e.path_parameters), ("query", e.query_parameters), ("header", e.header_parameters), ("cookie", e.cookie_parameters)) for p in ps],
+               [str(b_.body_type.value) for b_ in e.bodies], [int(r_.status_code) for r_ in e.responses]) for t, e in base.endpoints]
+        ev = [(t, e.method, e.path, [(str(p.name), loc) for loc, ps in (("path", e.path_parameters), ("query", e.query_parameters), ("header", e.header_parameters), ("cookie", e.cookie_parameters)) for p in ps],
+               [str(b_.body_type.value) for b_ in e.bodies], [int(r_.status_code) for r_ in e.responses]) for t, e in var.endpoints]
+        if eb != ev:
+            i = next((i for i, (x, y) in enumerate(zip(eb, ev)) if x != y), min(len(eb), len(ev)))
+            fail("literal_enums changed the parsed operations (tag, method, path, parameters by location, bodies, statuses)",
+                 {"off": eb[i] if i < len(eb) else None, "on": ev[i] if i < len(ev) else None})
         wire = ([], True)
     elif opt == "content_type_overrides":
         if not has_feature(doc, "ctype"):
@@ -1150,10 +1274,24 @@ def run(run, tier, replay=None):
         chunk = 9 if tier == "quick" else 15
         for ci in range(0, len(combos), chunk):
             jobs.append((label, doc, rng.randrange(1 << 30), combos[ci:ci + chunk], base_meta, 3 if tier == "quick" else 8))
+    # documents with enums in every position: the enum-representation option under test alone and in the context of other options
+    if not replay and os.environ.get("C16_ONLY") != "B":
+        from gen import ops as GO
+        edocs = [("enums", enum_everywhere_doc())] + [(l, d) for l, d in GO.atlas_param_docs()]
+        if tier == "thorough":
+            edocs += [(l, d) for l, d in GO.atlas_body_docs() + GO.atlas_response_docs() + GO.atlas_path_docs()]
+            edocs += [(f"ops{i}", GO.random_doc(random.Random(rng.randrange(1 << 30)))) for i in range(12)]
+        ectx = [(), ("generate_all_tags",), ("field_prefix",), ("docstrings_on_attributes",), ("class_overrides",), ("meta",)]
+        for ei, (label, doc) in enumerate(edocs):
+            ctxs = ectx if (label == "enums" or tier == "thorough") else ectx[:2]
+            for ci, c in enumerate(ctxs):
+                jobs.append((label, doc, rng.randrange(1 << 30), [c + ("literal_enums",)], "none" if (ei + ci) % 2 == 0 else "poetry", 4))
+        jobs.append(("enums", enum_everywhere_doc(), rng.randrange(1 << 30), [(o,) for o in SINGLES if o != "literal_enums"], "poetry", 4))
     run.rule = ("stage B: random (string, prefix, override table) / media type strings with override tables / operation lists with tag lists (duplicates, colliding and hostile "
                 "tags, failing operations) / (title, name, parent) triples, each evaluated by the implementation and by the Coq model; stage C: documents = a plain document + atlas "
                 "documents + random schema graphs, each extended with operations (several tags, octet/form/text/custom media types, parameter and property names that need a prefix, "
-                "titled inline objects, enums); a case = (document, context options, option under test): the tree generated with the option on is compared with the tree with it off "
+                "titled inline objects, enums) + a document with string/int enums in every position (model property, array item, union member, additionalProperties, parameters in all four "
+                "locations required and optional, request/response bodies) and the parameter atlas of gen/ops.py for the literal_enums comparison; a case = (document, context options, option under test): the tree generated with the option on is compared with the tree with it off "
                 "(both in the same context of other options) under the option's documented relation; non-trivial = the two trees differ; distinct by hash of (document label, options, flavour).")
     results = []
     with cf.ProcessPoolExecutor(max_workers=15) as ex:
@@ -1203,10 +1341,12 @@ def run(run, tier, replay=None):
         collision_probe(run)
     bad = run_cases(HDR, terms[:off], shard=250) + [off + i for i in fbad]
     print("phase corr %.1fs" % (time.time() - t0))
-    run.corr = {"cases": len(terms), "mismatches": len(bad),
+    nloc, badloc = stage_b_locations(run) if not replay else (0, 0)
+    run.corr = {"cases": len(terms) + nloc, "mismatches": len(bad) + badloc,
                 "what": "Class.from_string(overrides, field_prefix) == Frame.class_from_string; prefix sensitivity of PythonIdentifier/ClassName == needs_prefix/class_needs_prefix; "
                         "utils.get_content_type / _source_by_content_type / body_from_data == get_content_type / source_of / body_of; endpoint_collections_by_tag == collect; "
-                        "ModelProperty.build class == class_from_string (model_class_string ..); generated file set == prefix ++ core_files + flavour_only"}
+                        "ModelProperty.build class == class_from_string (model_class_string ..); generated file set == prefix ++ core_files + flavour_only; "
+                        "EnumProperty / LiteralEnumProperty.validate_location == FrameCodec.validate_location"}
     for i in bad[:8]:
         m = meta[i]
         mv = coq_eval(HDR, m["model_term"]) if "model_term" in m and len(m["model_term"]) < 20000 else ""
